@@ -54,7 +54,7 @@ class Eups:
 
         if dbz:
             # if user provides dbz, restrict self.path to those directories that include /dbz/
-            dbzRe = r"/%s(/|$)" % dbz
+            dbzRe = r"/%s(/|$)" % re.escape(dbz)
             path = [p for p in path if re.search(dbzRe, p)]
 
         eups_path = []
